@@ -905,13 +905,16 @@ func noteCache(variant string, n int) {
 	cacheMu.Unlock()
 }
 
+// recorder collects the observed events of every recorded behaviour; they are
+// written in behaviour order at the end, so the trace file does not depend on
+// the scheduling of the workers.
 type recorder struct {
-	mu  sync.Mutex
-	enc *json.Encoder
-	n   int
+	mu    sync.Mutex
+	byIdx map[int][]map[string]interface{}
+	n     int
 }
 
-func runOne(b rep.Behaviour, v variant, dir string, recd *recorder) (fl *failure, at int) {
+func runOne(idx int, b rep.Behaviour, v variant, dir string, recd *recorder) (fl *failure, at int) {
 	e := &env{dir: dir, v: v, txs: map[string]database.Tx{}, closed: map[string]database.Tx{}}
 	defer func() {
 		if r := recover(); r != nil {
@@ -1021,11 +1024,7 @@ func runOne(b rep.Behaviour, v variant, dir string, recd *recorder) (fl *failure
 	at = len(b)
 	if recd != nil {
 		recd.mu.Lock()
-		recd.enc.Encode(map[string]interface{}{"ev": "Reset"})
-		for _, ev := range events {
-			recd.enc.Encode(ev)
-		}
-		recd.n += len(events) + 1
+		recd.byIdx[idx] = events
 		recd.mu.Unlock()
 	}
 	return nil, len(b)
@@ -1055,12 +1054,7 @@ func main() {
 	}
 	var recd *recorder
 	if len(os.Args) > 7 {
-		f, err := os.Create(os.Args[7])
-		if err != nil {
-			panic(err)
-		}
-		defer f.Close()
-		recd = &recorder{enc: json.NewEncoder(f)}
+		recd = &recorder{byIdx: map[int][]map[string]interface{}{}}
 	}
 	os.MkdirAll(work, 0700)
 	jobs := make(chan int, 64)
@@ -1069,9 +1063,6 @@ func main() {
 	agree, runs, steps := 0, 0, 0
 	perVariant := map[string]int{}
 	workers := 12
-	if recd != nil {
-		workers = 1 // a deterministic trace file
-	}
 	for w := 0; w < workers; w++ {
 		wg.Add(1)
 		go func(w int) {
@@ -1085,7 +1076,7 @@ func main() {
 					if vi == 0 {
 						rc = recd
 					}
-					fl, at := runOne(b, v, dir, rc)
+					fl, at := runOne(i, b, v, dir, rc)
 					mu.Lock()
 					runs++
 					steps += at
@@ -1125,6 +1116,23 @@ func main() {
 	}
 	close(jobs)
 	wg.Wait()
+	if recd != nil {
+		f, err := os.Create(os.Args[7])
+		if err != nil {
+			panic(err)
+		}
+		enc := json.NewEncoder(f)
+		for i := range behs {
+			if evs, ok := recd.byIdx[i]; ok {
+				enc.Encode(map[string]interface{}{"ev": "Reset"})
+				for _, ev := range evs {
+					enc.Encode(ev)
+				}
+				recd.n += len(evs) + 1
+			}
+		}
+		f.Close()
+	}
 	var sample interface{}
 	if len(behs) > 0 {
 		sb := behs[len(behs)/2]
